@@ -33,7 +33,7 @@ BUDGET = {'quick': 900, 'thorough': 8000}
 RULE = ('det mode: 1..4 snapshots (thorough ..7), each with an outcome (ok / unconvertible / send raises Exception / '
         'send raises BaseException / body dies before sending with either class); a random interleaving of push, '
         'start (any queued task, any order), finish, callback, pushes also split into their regions (pushBegin = up to '
-        'pool.submit, pushStore = the store + callback attachment, with starts/finishes in between), one or two flushes started at a random point, pushes that meet an executor refusing new work (pushRejected: the step pool raises RuntimeError from submit, ~7% per choice point), and '
+        'pool.submit, pushStore = the store + callback attachment, with starts/finishes in between), submitters mode (1 in 12): the real Deep object graph; 0..3 ops while open (register / poll UPDATE / push / update_new_config), the real TaskHandler.flush(), then 1..4 ops through EVERY in-tree submitter (push_snapshot; __trigger_update via register_tracepoint, unregister of a live handle, LongPoll.poll answered UPDATE, update_new_config) — the caller must see an exception or a log record at WARNING or above, and nothing may reach the pool. det mode also has one or two flushes started at a random point, pushes that meet an executor refusing new work (pushRejected: the step pool raises RuntimeError from submit, ~7% per choice point), and '
         'pushes after flush began; 90% of schedules run to completion. pool mode (1 in 12): real 2-worker pool, 1..5 '
         'snapshots failing in send or ok, flush started while tasks are still blocked in send, released in random '
         'order. Non-trivial = a task that fails was still unfinished when flush began, or a callback ran after flush '
@@ -221,7 +221,10 @@ class Channel:
 
     def send(self, converted, metadata=None, **kw):
         b = self.bench
-        k = b.by_id.get(bytes(converted.ID))
+        try:
+            k = b.by_id.get(bytes(converted.ID))
+        except Exception:  # noqa: BLE001 — something that is not a converted snapshot (None) was handed to send:
+            k = b.current_snapshot()     # still a send attempt of the running task (no task known: a stray send)
         with b.lock:
             b.sends.append((k, threading.current_thread()))
         if b.mode == 'pool' and threading.current_thread() not in b.callers:
@@ -771,8 +774,168 @@ def known_finding(case, obs):
     return None
 
 
+# ----------------------------------------------------------------- every in-tree submitter, before and after close
+SUBMITTER_OF = {'push': 'PushService.push_snapshot', 'register': 'TracepointConfigService.__trigger_update',
+                'unregister': 'TracepointConfigService.__trigger_update',
+                'poll_update': 'TracepointConfigService.__trigger_update',
+                'update_new_config': 'TracepointConfigService.__trigger_update'}
+
+
+class _Records:
+    """log records at WARNING or above emitted on the calling thread, by the agent's logger or through the root
+    logger (task/__init__.py and config/tracepoint_config.py log through the stdlib module functions)"""
+
+    def __init__(self):
+        import logging
+        self.logging = logging
+        self.got = []
+        outer = self
+
+        class H(logging.Handler):
+            def emit(self, record):
+                if record.levelno >= logging.WARNING and record.thread == outer.thread:
+                    outer.got.append(record.levelname)
+        self.h = H(level=logging.WARNING)
+
+    def __enter__(self):
+        lg = self.logging
+        self.thread = threading.get_ident()
+        self.root, self.deep = lg.getLogger(), lg.getLogger('deep')
+        self.saved = (self.root.level, self.root.disabled, self.deep.disabled, lg.root.manager.disable)
+        lg.disable(lg.NOTSET)
+        self.root.setLevel(lg.DEBUG)
+        self.root.disabled = self.deep.disabled = False
+        self.root.addHandler(self.h)
+        self.deep.addHandler(self.h)
+        return self
+
+    def __exit__(self, *a):
+        self.root.removeHandler(self.h)
+        self.deep.removeHandler(self.h)
+        self.root.setLevel(self.saved[0])
+        self.root.disabled, self.deep.disabled = self.saved[1], self.saved[2]
+        self.logging.disable(self.saved[3])
+        return False
+
+
+def run_submitters(case):
+    """the REAL Deep object graph (svcbench: real ConfigService / TracepointConfigService / TaskHandler / PushService /
+    LongPoll / TriggerHandler; fake channel; the pool inside the TaskHandler is a step executor).  `before` ops run
+    while the handler is open (their tasks are then run), then the real TaskHandler.flush() closes it, then every
+    `after` op hands work to the handler through one of the in-tree submitters.  Per op: what the caller saw."""
+    import svcbench
+    b = svcbench.SvcBench()
+    out = {'before': [], 'after': [], 'degraded': list(b.degraded)}
+    try:
+        n_snap = [0]
+
+        def one(op):
+            k = op['op']
+            jobs = len(b.exec.jobs)
+            told = [0]
+            r = {'op': k}
+            with _Records() as rec:
+                try:
+                    if k == 'push':
+                        n_snap[0] += 1
+                        tp = TracePointConfig('tp%d' % n_snap[0], 'a.py', 1, {}, [], [])
+                        b.deep.push.push_snapshot(EventSnapshot(tp, 1, Resource.get_empty(), [], {}))
+                    elif k == 'register':
+                        reg = b.deep.register_tracepoint('a.py', op.get('line', 10), {}, [op.get('tag', 'w')])
+                        b.handles.append(reg)
+                    elif k == 'unregister':
+                        h = op['handle']
+                        if h < len(b.handles) and b.handles[h] is not None:
+                            b.handles[h].unregister()
+                        else:
+                            r['skipped'] = True
+                    elif k == 'poll_update':
+                        b.channel.next = ('resp', svcbench.make_response(
+                            {'op': 'poll', 'rt': 1, 'ts': op.get('ts', 1), 'hash': op.get('hash', 'h'),
+                             'tps': [{'path': 'a.py', 'line': 10, 'tag': op.get('hash', 'h'), 'args': {}}]}))
+                        b.deep.poll.poll()
+                    elif k == 'update_new_config':
+                        b.tps.update_new_config(op.get('ts', 1), op.get('hash', 'h'), [])
+                    else:
+                        raise core.Infra('unknown submitter op ' + k)
+                except core.Infra:
+                    raise
+                except BaseException as e:  # noqa: B902 — what the submitter's caller sees
+                    r['raised'] = type(e).__name__
+                    r['raised_is_exception'] = isinstance(e, Exception)
+                r['logs'] = list(rec.got)
+            r['accepted'] = len(b.exec.jobs) - jobs
+            return r
+        for op in case['before']:
+            out['before'].append(one(op))
+        n = 0
+        while b.exec.waiting() and n < 100:
+            b.do({'op': 'applyTask', 'i': 0})
+            n += 1
+        try:
+            b.deep.task_handler.flush()
+        except BaseException as e:  # noqa: B902
+            out['flush_raised'] = type(e).__name__
+        out['open_after_flush'] = getattr(b.deep.task_handler, '_open', None)
+        for op in case['after']:
+            out['after'].append(one(op))
+        return out
+    finally:
+        b.close()
+
+
+def gen_submitters(rng):
+    before, after, regs = [], [], 0
+    for _ in range(rng.randint(0, 3)):
+        k = rng.choice(['register', 'register', 'poll_update', 'push', 'update_new_config'])
+        before.append({'op': k, 'tag': 'w%d' % regs, 'hash': 'h%d' % len(before), 'ts': rng.randint(0, 99)})
+        regs += k == 'register'
+    for _ in range(rng.randint(1, 4)):
+        k = rng.choice(['register', 'poll_update', 'push', 'update_new_config'] + (['unregister'] * 2 if regs else []))
+        op = {'op': k, 'tag': 'late%d' % len(after), 'hash': 'late%d' % len(after), 'ts': rng.randint(0, 99)}
+        if k == 'unregister':
+            op['handle'] = rng.randrange(regs)
+            regs_live = op['handle']
+            if any(a['op'] == 'unregister' and a['handle'] == regs_live for a in after):
+                continue          # a second unregister of the same handle finds nothing: it submits no work
+        after.append(op)
+    if not after:
+        after.append({'op': 'register', 'tag': 'late', 'hash': 'late', 'ts': 1})
+    return {'mode': 'submitters', 'before': before, 'after': after}
+
+
+def submit_visibility(r):
+    """what the caller of a submitter saw: raised_base / raised_exc / logged / silent"""
+    if 'raised' in r:
+        return 'raised_exc' if r.get('raised_is_exception') else 'raised_base'
+    return 'logged' if r.get('logs') else 'silent'
+
+
+def oracle_submitters(case, obs):
+    v = []
+    if obs.get('bench_error'):
+        return v
+    if 'flush_raised' in obs:
+        v.append(f'flush() raised {obs["flush_raised"]}')
+    for op, r in zip(case['before'], obs['before']):
+        if 'raised' in r:
+            v.append(f'before close: {op["op"]} raised {r["raised"]}')
+    for n, (op, r) in enumerate(zip(case['after'], obs['after'])):
+        if r.get('skipped'):
+            continue
+        what = f'after TaskHandler.flush() closed the handler, {op["op"]} (submits through {SUBMITTER_OF[op["op"]]})'
+        if r['accepted']:
+            v.append(f'{what}: {r["accepted"]} task(s) reached the pool — work accepted after closing')
+        elif submit_visibility(r) == 'silent':
+            v.append(f'{what} returned normally, raised nothing and logged nothing at WARNING or above: the work was '
+                     f'dropped silently, not refused visibly')
+    return v[:4]
+
+
 def run_impl(case):
     try:
+        if case['mode'] == 'submitters':
+            return run_submitters(case)
         return run_pool(case) if case['mode'] == 'pool' else run_det(case)
     except core.Infra:
         raise
@@ -972,6 +1135,8 @@ def gen(rng, tier):
             yield gen_multiflush(rng)
         elif k % 12 == 0:
             yield gen_pool(rng, tier, base_first=(k % 24 == 0))
+        elif k % 12 == 5:
+            yield gen_submitters(rng)
         else:
             yield gen_det(rng, tier)
 
@@ -1004,6 +1169,10 @@ def corpus():
         # the executor refuses the second push (its id is used up), the others are delivered once; refused again after close
         {'mode': 'det', 'outcomes': ['ok', 'ok', 'send_exc', 'ok'],
          'sched': [P, {'s': 'pushRejected'}, P, st(1), st(2), F, fi(2), fi(1), cb(1), cb(2), {'s': 'pushRejected'}]},
+        # every in-tree submitter after close: push, register, unregister, a late poll UPDATE, update_new_config
+        {'mode': 'submitters', 'before': [{'op': 'register', 'tag': 'w0'}, {'op': 'poll_update', 'hash': 'h1', 'ts': 1}],
+         'after': [{'op': 'push'}, {'op': 'register', 'tag': 'late'}, {'op': 'unregister', 'handle': 0},
+                   {'op': 'poll_update', 'hash': 'h2', 'ts': 2}, {'op': 'update_new_config', 'hash': 'h3', 'ts': 3}]},
         # 20 failing tasks (the suite's test, with the schedule pinned)
         {'mode': 'det', 'outcomes': ['dies_exc', 'dies_base', 'send_exc'],
          'sched': [P, P, P, st(1), st(2), st(3), fi(3), fi(2), fi(1), F, cb(1), cb(2), cb(3)]},
@@ -1096,6 +1265,8 @@ def judge_state(case, o, where, pushes_after_close, outs):
 
 
 def oracle(case, obs):
+    if case['mode'] == 'submitters':
+        return oracle_submitters(case, obs)
     outs = accepted_outcomes(case, None)
     v = []
     if obs.get('bench_error'):
@@ -1185,6 +1356,9 @@ def pool_model_sched(case):
 
 
 def model_request(case, obs):
+    if case['mode'] == 'submitters':
+        return {'submitters': [{'func': SUBMITTER_OF[op['op']], 'open': True} for op in case['before']] +
+                              [{'func': SUBMITTER_OF[op['op']], 'open': False} for op in case['after']]}
     if case.get('park_flush') or case.get('flush1_times_out') or any(st['s'] == 'flush2Begin' for st in case['sched']):
         return None      # flush parked inside its own bookkeeping / two callers of flush / a wait that timed out:
         #                  no such region in the model — judged by the oracle
@@ -1233,6 +1407,22 @@ def compare(case, obs, resp):
         return ['the bench could not run the case on this implementation: ' + obs['bench_error']]
     if obs.get('stalled'):
         return ['implementation stalled: ' + obs['stalled']]
+    if case['mode'] == 'submitters':
+        d = []
+        want = sorted(set(SUBMITTER_OF.values()))
+        if sorted(resp.get('sites', [])) != want:
+            d.append(f'in-tree submitters: the source has {sorted(resp.get("sites", []))}, the bench drives {want}')
+        ops = [('before close', o, r) for o, r in zip(case['before'], obs['before'])] + \
+              [('after close', o, r) for o, r in zip(case['after'], obs['after'])]
+        for (when, op, r), m in zip(ops, resp['results']):
+            if r.get('skipped'):
+                continue
+            got = 'accepted' if (r['accepted'] and 'raised' not in r) else submit_visibility(r)
+            if when == 'before close' and op['op'] == 'unregister':
+                continue
+            if m != got and not (got == 'raised_exc' and m == 'raised_base' and r.get('raised') == 'RuntimeError'):
+                d.append(f'{when}, {op["op"]} through {SUBMITTER_OF[op["op"]]}: model {m} vs implementation {got}')
+        return d[:4]
     if case['mode'] == 'pool':
         if not obs['complete']:
             return []
@@ -1246,6 +1436,8 @@ def compare(case, obs, resp):
 
 
 def _features(case):
+    if case['mode'] == 'submitters':
+        return {'after-close/' + '+'.join(sorted({op['op'] for op in case['after']}))}
     outs = accepted_outcomes(case, None)
     fails = {i + 1 for i, o in enumerate(outs) if o in ('send_exc', 'send_base', 'dies_exc', 'dies_base')}
     closed = False
@@ -1269,6 +1461,8 @@ def _features(case):
 
 def label(case, obs):
     f = _features(case)
+    if case['mode'] == 'submitters':
+        return 'submitters/' + '+'.join(sorted(f))
     deg = 'degraded/' if (obs.get('bench_error') or any(o.get('degraded') for o in obs.get('trace') or [])
                           or (obs.get('final') or {}).get('degraded')) else ''
     multi = '-flush-again-after-timeout' if case.get('flush1_times_out') else \
@@ -1282,6 +1476,14 @@ def nontrivial(case, obs):
 
 
 def shrink(case):
+    if case['mode'] == 'submitters':
+        for i in range(len(case['before']) - 1, -1, -1):
+            if case['before'][i]['op'] != 'register':
+                yield dict(case, before=case['before'][:i] + case['before'][i + 1:])
+        for i in range(len(case['after']) - 1, -1, -1):
+            if len(case['after']) > 1:
+                yield dict(case, after=case['after'][:i] + case['after'][i + 1:])
+        return
     if case.get('park_flush') or case.get('flush1_times_out'):
         return
     sc = case['sched']
